@@ -116,11 +116,7 @@ func (e *Engine) load(fr *frame, T types.Type, addr Value) Value {
 		for i := range p.S {
 			e.fixPoison(&p.S[i], T)
 		}
-		res := p.S[n-1].(*sym.Term)
-		for i := n - 2; i >= 0; i-- {
-			res = e.T.Ite(e.T.Eq(p.Idx, e.intC(int64(i))), p.S[i].(*sym.Term), res)
-		}
-		return res
+		return e.selectTree(p.Idx, n, func(i int) *sym.Term { return p.S[i].(*sym.Term) })
 	case Opaque:
 		e.unsupported("load through opaque pointer: " + p.Why)
 	case UnsafePtr:
@@ -264,11 +260,7 @@ func (e *Engine) index(fr *frame, x Value, idxV Value) Value {
 		}
 		e.boundsCheck(fr, idx, len(x), "index")
 		if scalarSlice(x) {
-			res := x[len(x)-1].(*sym.Term)
-			for i := len(x) - 2; i >= 0; i-- {
-				res = e.T.Ite(e.T.Eq(idx, e.intC(int64(i))), x[i].(*sym.Term), res)
-			}
-			return res
+			return e.selectTree(idx, len(x), func(i int) *sym.Term { return x[i].(*sym.Term) })
 		}
 		i := e.Concretize(idx, len(x), "index into array")
 		return copyVal(x[i])
@@ -282,11 +274,7 @@ func (e *Engine) index(fr *frame, x Value, idxV Value) Value {
 			return e.strByte(x, int(i))
 		}
 		e.boundsCheck(fr, idx, n, "string index")
-		res := e.strByte(x, n-1)
-		for i := n - 2; i >= 0; i-- {
-			res = e.T.Ite(e.T.Eq(idx, e.intC(int64(i))), e.strByte(x, i), res)
-		}
-		return res
+		return e.selectTree(idx, n, func(i int) *sym.Term { return e.strByte(x, i) })
 	case Opaque:
 		return x
 	}
@@ -497,13 +485,13 @@ func (e *Engine) eqnil(fr *frame, t types.Type, x, y Value) *sym.Term {
 func (e *Engine) binop(fr *frame, op token.Token, t types.Type, x, y Value) Value {
 	if o, ok := x.(Opaque); ok {
 		if op == token.EQL || op == token.NEQ {
-			e.unsupported("comparison of opaque: " + o.Why)
+			e.unsupported("comparison of opaque at " + e.where(fr) + ": " + o.Why)
 		}
 		return o
 	}
 	if o, ok := y.(Opaque); ok {
 		if op == token.EQL || op == token.NEQ {
-			e.unsupported("comparison of opaque: " + o.Why)
+			e.unsupported("comparison of opaque at " + e.where(fr) + ": " + o.Why)
 		}
 		return o
 	}
@@ -1318,4 +1306,55 @@ func unwrapUnsafe(v Value) Value {
 		return u.P
 	}
 	return v
+}
+
+// selectTree is cell(idx) for a symbolic idx known to lie in [0,n): short
+// tables as an ite chain, longer ones as a balanced ite tree over unsigned
+// comparisons (depth log n instead of n, subtrees of equal cells collapse).
+// For a table of constants the value range is added to the path condition as
+// a lemma (valid, so it changes no verdict; it saves the solver from
+// rediscovering it through the tree).
+func (e *Engine) selectTree(idx *sym.Term, n int, cell func(i int) *sym.Term) *sym.Term {
+	if n <= 8 {
+		res := cell(n - 1)
+		for i := n - 2; i >= 0; i-- {
+			res = e.T.Ite(e.T.Eq(idx, e.intC(int64(i))), cell(i), res)
+		}
+		return res
+	}
+	cells := make([]*sym.Term, n)
+	allConst := true
+	for i := range cells {
+		cells[i] = cell(i)
+		if !cells[i].IsConst() {
+			allConst = false
+		}
+	}
+	var build func(lo, hi int) *sym.Term
+	build = func(lo, hi int) *sym.Term {
+		if lo == hi {
+			return cells[lo]
+		}
+		mid := (lo + hi) / 2
+		l, r := build(lo, mid), build(mid+1, hi)
+		if l == r {
+			return l
+		}
+		return e.T.Ite(e.T.Ult(idx, e.intC(int64(mid+1))), l, r)
+	}
+	res := build(0, n-1)
+	if allConst && !cells[0].IsBool() && !res.IsConst() {
+		mn, mx := cells[0].V, cells[0].V
+		for _, c := range cells {
+			if c.V < mn {
+				mn = c.V
+			}
+			if c.V > mx {
+				mx = c.V
+			}
+		}
+		w := cells[0].W
+		e.addPC(e.T.And(e.T.Ule(e.T.Const(w, mn), res), e.T.Ule(res, e.T.Const(w, mx))))
+	}
+	return res
 }
